@@ -2,7 +2,7 @@
 
 Bounded-exhaustive exploration of `opticomlib.devices.FBG`:
 
-* part `lattice`  : deviation lattice (k <= 2, both tiers; the thorough tier uses the longer alphabets) around one
+* part `lattice`  : deviation lattice (k <= 2, both tiers) around one
                     baseline design over 17 axes: sampling rate, input length (powers of two, odd, prime, non-smooth,
                     even non-power-of-two), layout (1/2 polarisations, second one zero, n_pol=2, noise forms),
                     input field (content, sample dtype, scale), filtfilt, call form (retH / no retH / print / positional),
@@ -88,36 +88,34 @@ def seeded_profiles(seed):
 CORE = {'fs': 3, 'n': 5, 'layout': 2, 'inp': 3, 'filtfilt': 2, 'kL': 6, 'vd': 3, 'F': 5, 'apod': 11, 'route': 6}
 
 
-def axes(seed, full=True):
-    """(name, members); the first member of every axis is the baseline.  `full=False` is the thin slice of the quick
-    tier: a subset of every alphabet, so that the thorough lattice contains the quick one."""
-    def pick(quick, more):
-        return quick + (more if full else [])
+def axes(seed):
+    """(name, members); the first member of every axis is the baseline (both tiers use the same alphabets: the whole
+    2-deviation lattice costs about one CPU minute)"""
     return [
         # GS/s; 33.3 is a non-integer rate (set as sps=10, R=fs/10)
         ('fs', [100, 20, 400, 33.3]),
         # 2^8, 2^10, 2^12; 257 odd prime; 1001 = 7.11.13 odd, non-smooth; 3000 even, not a power of two;
         # 4093 the largest prime below 2^12; 509 prime, 4095 = 2^12 - 1, 2^9 + 2
-        ('n', pick([256, 1024, 4096, 257, 1001, 3000, 4093], [509, 4095, 514])),
-        ('layout', pick(['1pol', '2pol', '2pol-zero2', '2pol-dup', '1pol-noise', '2pol-noise1'],
-                        ['2pol-noise', '1pol-noise0', '1pol-noisef32', '1x-2d'])),
-        ('inp', pick(['impulse', 'random', 'gauss', 'int64', 'uint8', 'bool', 'float32', 'complex64',
-                      'random@1e-12', 'random@1e6', 'dc'],
-                     ['int8', 'int16', 'int32', 'float16', 'intfloat', 'random@1e-9', 'random@1e-6'])),
+        ('n', [256, 1024, 4096, 257, 1001, 3000, 4093, 509, 4095, 514]),
+        ('layout', ['1pol', '2pol', '2pol-zero2', '2pol-dup', '1pol-noise', '2pol-noise1',
+                    '2pol-noise', '1pol-noise0', '1pol-noisef32', '1x-2d']),
+        ('inp', ['impulse', 'random', 'gauss', 'int64', 'uint8', 'bool', 'float32', 'complex64',
+                 'random@1e-12', 'random@1e6', 'dc',
+                 'int8', 'int16', 'int32', 'float16', 'intfloat', 'random@1e-9', 'random@1e-6']),
         ('filtfilt', [True, False]),
         ('call', ['retH', 'noretH', 'print', 'positional']),
         ('kL', [1.0, 0.5, 2.0, 0.1, 4.0, 8.0]),
         ('kLform', ['periods', 'exact']),
         ('vd', [1e-4, 1e-3, 1e-5]),
-        ('F', pick([0.0, 5.0, -5.0, 20.0, -20.0], [0.37, -12.5])),
+        ('F', [0.0, 5.0, -5.0, 20.0, -20.0, 0.37, -12.5]),
         ('apod', [('name', 'uniform'), ('name', 'rcos'), ('name', 'gaussian'), ('name', 'parabolic'),
                   ('fn', 'uniform'), ('fn', 'rcos'), ('fn', 'gaussian'), ('fn', 'parabolic')]
          + seeded_profiles(seed) + [('tilt', 0.8), ('skew', 0.2), ('obj', 'gaussian'), ('partial', 'parabolic'),
-                                    ('strict', 'parabolic')]
-         + (pick([], [('expt', 1.5), ('tilt', -0.8), ('npfn', 'rcos'), ('obj', 'uniform')]))),
+                                    ('strict', 'parabolic'), ('expt', 1.5), ('tilt', -0.8), ('npfn', 'rcos'),
+                                    ('obj', 'uniform'), ('npstr', 'rcos')]),
         ('route', [('fc', 'kL'), ('landa_D', 'kL'), ('fc', 'L'), ('fc', 'N'), ('landa_D', 'L'), ('landa_D', 'N')]),
         ('ptype', ['float', 'np64', 'int', 'npint', '0d', 'f32']),
-        ('gv', pick(['sps,R', 'fs', 'R,fs', 'wl1310', 'N', 'reconf'], ['sps,fs', 'wl1625'])),
+        ('gv', ['sps,R', 'fs', 'R,fs', 'wl1310', 'N', 'reconf', 'sps,fs', 'wl1625']),
         ('off', [0, 5, -7]),                                      # Bragg frequency = gv.f0 + off bins
     ]
 
@@ -157,7 +155,7 @@ def point(ax, **dev):
 # ---------------------------------------------------------------------------- reference profiles
 def ref_profile(apod):
     kind = apod[0]
-    if kind in ('name', 'fn', 'obj', 'partial', 'npfn', 'named', 'strict'):
+    if kind in ('name', 'npstr', 'fn', 'obj', 'partial', 'npfn', 'named', 'strict'):
         n = apod[1]
         if n == 'uniform':
             return lambda z: 1.0
@@ -208,6 +206,8 @@ def lib_apod(apod):
     kind = apod[0]
     if kind == 'name':
         return apod[1]
+    if kind == 'npstr':                        # the built-in name as a numpy string scalar
+        return np.str_(apod[1])
     f = ref_profile(apod)
     if kind == 'obj':
         return _Profile(f)
@@ -231,7 +231,7 @@ def lib_apod(apod):
 
 
 def twin(apod):
-    if apod[0] == 'name':
+    if apod[0] in ('name', 'npstr'):
         return ('fn', apod[1])
     if apod[0] in ('fn', 'obj', 'partial', 'npfn', 'named', 'strict'):
         return ('name', apod[1])
@@ -244,7 +244,7 @@ def profile_integral(apod):
 
 
 def apod_label(apod):
-    return apod[1] if apod[0] in ('name', 'fn', 'obj', 'partial', 'npfn', 'named', 'strict') else apod[0]
+    return apod[1] if apod[0] in ('name', 'npstr', 'fn', 'obj', 'partial', 'npfn', 'named', 'strict') else apod[0]
 
 
 # ---------------------------------------------------------------------------- grid histories
@@ -836,8 +836,7 @@ def docode_case(case):
 # ---------------------------------------------------------------------------- driver
 def run(ctx):
     seed = ctx.seed
-    full = not ctx.quick
-    ax = axes(seed, full)
+    ax = axes(seed)
     pts = deviations(ax, 2)
     ctx.rule(f'C16 lattice: every design that differs from the baseline {dict((a, v[0]) for a, v in ax)} in at most 2 of the '
              f'{len(ax)} axes {[(a, len(v)) for a, v in ax]} ({len(pts)} designs, ordered by number of deviations; the exact kL '
@@ -875,7 +874,7 @@ def run(ctx):
     absorb(ctx.pmap('lattice', design_case, cases, horizon=180.0, chunk=1), cases)
 
     if not ctx.quick:
-        p3 = deviations(axes(seed, False), 3, exactly=3, only=CORE)
+        p3 = deviations(ax, 3, exactly=3, only=CORE)
         ctx.rule(f'C16 lattice3: the designs with exactly 3 deviations over the design axes and leading members {CORE}: {len(p3)}')
         cases = [(seed, p) for p in p3]
         absorb(ctx.pmap('lattice3', design_case, cases, horizon=180.0, chunk=1), cases)
@@ -895,9 +894,9 @@ def run(ctx):
     kLs = [0.1, up(0.1), dn(8.0), 8.0]
     vds = [1e-5, up(1e-5), dn(1e-3), 1e-3]
     Fs = [-20.0, up(-20.0), 0.0, dn(20.0), 20.0]
-    lim_ap = [('name', 'uniform'), ('name', 'gaussian')] + ([] if ctx.quick else [('tilt', 0.8), ('fn', 'rcos'), ('skew', 0.2),
-                                                                                    ('strict', 'parabolic')])
-    lim_fs = [100] if ctx.quick else [100, 20, 400]
+    lim_ap = ([('name', 'uniform'), ('name', 'gaussian'), ('tilt', 0.8), ('strict', 'parabolic')]
+              + ([] if ctx.quick else [('fn', 'rcos'), ('skew', 0.2)]))
+    lim_fs = [100, 20] if ctx.quick else [100, 20, 400]
     lim = [point(ax, fs=fs_, kL=kL, vd=vd, F=F, apod=ap, kLform='exact')
            for ap, fs_, kL, vd, F in itertools.product(lim_ap, lim_fs, kLs, vds, Fs)]
     ctx.rule(f'C16 limits: kL {kLs} x vdneff {vds} x F {Fs} (the documented limits exactly and one ulp inside, exact kL) x '
